@@ -81,6 +81,15 @@ fn r(n: int) -> int { if n == 0 { 0 } else { 1 + r(n - 1) } }
 fn w(n: int) { println("w", r(n)); }
 fn main() { spawn w(%d); let c = 0; while c < 400 { c = c + 1; g = g + 1; } println("main done"); }`, d)
 	}},
+	{name: "recursion-via-value", interp: true, depthOf: func(d int) int { return d + 1 }, gen: func(d int) string {
+		return fmt.Sprintf(`fn r(n: int) -> int { let f = r; if n == 0 { 0 } else { 1 + f(n - 1) } }
+fn main() { println("r", r(%d)); }`, d)
+	}},
+	{name: "mutual-recursion", interp: true, depthOf: func(d int) int { return d + 1 }, gen: func(d int) string {
+		return fmt.Sprintf(`fn a(n: int) -> int { if n == 0 { 0 } else { 1 + b(n - 1) } }
+fn b(n: int) -> int { if n == 0 { 0 } else { 1 + a(n - 1) } }
+fn main() { println("r", a(%d)); }`, d)
+	}},
 	{name: "loop-calls", leak: true, interp: true, depthOf: func(d int) int { return 4 }, gen: func(d int) string {
 		return fmt.Sprintf(`fn c3(x: int) -> int { let t = [x, x + 1]; t[0] + t[1] }
 fn c2(x: int) -> int { let y = c3(x); y + 1 }
